@@ -1,2 +1,90 @@
-(* C05 — Every published message is valid JSON that faithfully carries the decode (theorems added as proved). *)
-From VF Require Import Base.Prelude Model.Flow Model.MarshalFlow.
+(* C05 — Every published message is valid JSON that faithfully carries the decode.
+   Specification side: Spec/JsonGrammar.v (the RFC 8259 grammar as a relation text ~ value, compact forms) and
+   Spec/JsonDenote.v (the value a decoded message must be published as: exporter address in canonical text form,
+   header members, per record the fields with id, value and - IPFIX, when non-zero - enterprise number; integers
+   exact, text as the runes of the octets, octet arrays as 0x-hex, non-finite floats as strings).
+   The theorems say: the octets JSONMarshal writes ARE a JSON text of that grammar and denote exactly that value,
+   for every datagram (all octets), every information model, cache and header content - whatever the element
+   types and field contents (quotes, backslashes, control characters, invalid UTF-8, NaN/Inf, booleans, extremes).
+   Floating-point number tokens are written by strconv.FormatFloat, which is not modelled: they appear as opaque
+   tokens (float_token; trusted to be JSON numbers, and parsed by an independent parser in the correspondence). *)
+From VF Require Import Base.Prelude Base.IPText Base.Utf8 Base.Json Spec.JsonGrammar Spec.JsonDenote
+  Model.Reader Model.Layout Model.JsonPieces Model.Flow Model.MarshalFlow Model.Ipfix Model.Nf5
+  Proofs.JsonProofs Proofs.MarshalProofs Proofs.WfDecode Proofs.WfDecode9 Proofs.SflowJson.
+From VF Require Model.Nf9 Model.Sflow Gen.JsonPieces Gen.Layouts.
+
+(* IPFIX: what is decoded from ANY datagram of octets is published as a JSON text denoting it *)
+Theorem C05_ipfix_published_json : forall (C : Type) (ops : cache_ops C) im c a p c1 m nf,
+  wf_bytes p -> wf_bytes a ->
+  ipfix_decode ops im Gen.Layouts.ipfix_header_layout c a p = Ok (c1, DMsg m nf) ->
+  Gjson (flow_marshal true Gen.JsonPieces.ipfix_agent_pieces Gen.JsonPieces.ipfix_header_pieces (i_agent m) (i_header m) (i_sets m))
+        (flow_json true ipfix_names a (i_header m) (i_sets m)).
+Proof.
+  intros C ops im c a p c1 m nf Hp Ha E. destruct (ipfix_decode_wf ops im _ c a p c1 m nf Hp E) as [-> Hd].
+  apply ipfix_marshal_ok; assumption.
+Qed.
+Print Assumptions C05_ipfix_published_json.
+
+Theorem C05_nf9_published_json : forall (C : Type) (ops : cache_ops C) im c a p c1 m nf,
+  wf_bytes p -> wf_bytes a ->
+  Nf9.nf9_decode ops im Gen.Layouts.nf9_header_layout c a p = Ok (c1, DMsg m nf) ->
+  Gjson (flow_marshal false Gen.JsonPieces.nf9_agent_pieces Gen.JsonPieces.nf9_header_pieces (Nf9.n9_agent m) (Nf9.n9_header m) (Nf9.n9_sets m))
+        (flow_json false nf9_names a (Nf9.n9_header m) (Nf9.n9_sets m)).
+Proof.
+  intros C ops im c a p c1 m nf Hp Ha E. destruct (nf9_decode_wf ops im _ c a p c1 m nf Hp E) as [-> Hd].
+  apply nf9_marshal_ok; assumption.
+Qed.
+Print Assumptions C05_nf9_published_json.
+
+(* NetFlow v5: any decoded message (header, flows) *)
+Theorem C05_nf5_published_json : forall m, wf_bytes (n5_agent m) ->
+  Gjson (nf5_marshal Gen.JsonPieces.nf5_agent_pieces Gen.JsonPieces.nf5_header_pieces Gen.JsonPieces.nf5_flow_pieces m)
+        (nf5_json (n5_agent m) (n5_header m) (n5_flows m)).
+Proof. exact nf5_marshal_ok. Qed.
+Print Assumptions C05_nf5_published_json.
+
+(* sFlow is encoded with encoding/json (trusted, not hand-written); its model is the generic printer over the tree
+   SFDecode builds.  Whatever the datagram's octets, that tree is printable and its text denotes it. *)
+Theorem C05_sflow_published_json : forall filter p ok j, wf_bytes p ->
+  Sflow.sf_decode Gen.Layouts.sf_flow_sample_layout Gen.Layouts.sf_counter_sample_layout Gen.Layouts.sf_ext_switch_layout
+            Gen.Layouts.sf_generic_layout Gen.Layouts.sf_ethernet_layout Gen.Layouts.sf_tokenring_layout
+            Gen.Layouts.sf_vg_layout Gen.Layouts.sf_vlan_layout Gen.Layouts.sf_processor_layout
+            Gen.Layouts.sf_flow_sample_fields Gen.Layouts.sf_counter_sample_fields Gen.Layouts.sf_ext_switch_fields
+            Gen.Layouts.sf_generic_fields Gen.Layouts.sf_ethernet_fields Gen.Layouts.sf_tokenring_fields
+            Gen.Layouts.sf_vg_fields Gen.Layouts.sf_vlan_fields Gen.Layouts.sf_processor_fields filter p = Ok (ok, Some j) ->
+  Gjson (render j) (denote j).
+Proof. intros filter p ok j Hp E. apply render_valid. eapply sf_decode_wf; eassumption. Qed.
+Print Assumptions C05_sflow_published_json.
+
+Theorem C05_generic_printer_json : forall j, wf_jv j -> Gjson (render j) (denote j).
+Proof. exact render_valid. Qed.
+Print Assumptions C05_generic_printer_json.
+
+(* the ingredients, each for every input: numbers exact, text correctly escaped, addresses plain *)
+Theorem C05_numbers_exact : forall z, Gint (show_Z z) z.
+Proof. exact show_Z_int. Qed.
+Print Assumptions C05_numbers_exact.
+
+Theorem C05_text_escaped : forall s, wf_bytes s -> Gstring (json_string s) (go_runes s).
+Proof. exact json_string_ok. Qed.
+Print Assumptions C05_text_escaped.
+
+Theorem C05_value_json : forall v, wf_value v -> Gjson (write_value v) (val_json v).
+Proof. exact write_value_ok. Qed.
+Print Assumptions C05_value_json.
+
+Theorem C05_address_text_plain : forall a, wf_bytes a -> Gstring (MarshalFlow.quoted (ip_string a)) (ip_string a).
+Proof. intros a H. exact (Gstring_plain _ (plain_ip a H)). Qed.
+Print Assumptions C05_address_text_plain.
+
+(* ---- non-vacuity / sanity (tests, not theorems): hostile content comes out escaped ---- *)
+Example C05_hostile_string :
+  json_string [34; 92; 10; 255; 195; 169; 65]       (* quote, backslash, LF, an invalid octet, e-acute, A *)
+  = s2l """\""\\\u000a" ++ [239; 191; 189; 195; 169; 65; 34].
+Proof. vm_compute. reflexivity. Qed.
+Example C05_field_instance :
+  encode_field true {| d_id := 82; d_pen := 9; d_val := VStr [34; 7] |} = s2l "{""I"":82,""V"":""\""\u0007"",""E"":9}".
+Proof. vm_compute. reflexivity. Qed.
+Example C05_nonfinite_float_is_a_string :
+  val_json (VF32 2143289344) = VString (s2l "@F32:2143289344@") /\ val_json (VF32 1065353216) = VFloatTok (s2l "@F32:1065353216@").
+Proof. vm_compute. split; reflexivity. Qed.
